@@ -83,10 +83,23 @@ func payloadOf(data []byte) SpliceInsertParams { return SpliceInsertParams{} }
 //@ func IsValidSCTE35Interval
 //@   ensures (adsPerMinute == 1 || adsPerMinute == 2 || adsPerMinute == 3) <==> result == nil
 
+// CreateSpliceInsertPayload: bit layout and CRC-32 come from the gots library (payloadOf is an
+// assumption at call sites); what IS checked is how the library is driven: every field is set from the
+// matching parameter, and the signal's own PTS is set to the command's PTS - the library encodes
+// pts_adjustment as their difference, so anything else shifts the effective splice time.
 //@ func CreateSpliceInsertPayload
-//@   trusted
-//@   ensures payloadOf(result) == p
-//@   allocates
+//@   wiring
+//@   defines payloadOf(result) == p
+//@   callsite github.com/Comcast/gots/v2/scte35.SpliceInsertCommand.SetPTS requires commandPtsIsParam: uint64(arg1) == p.PtsTime
+//@   callsite github.com/Comcast/gots/v2/scte35.SCTE35.SetPTS requires adjustmentIsZero: uint64(arg1) == p.PtsTime && arg0 == s
+//@   callsite SetEventID requires eventIdIsParam: arg1 == p.SpliceEventID
+//@   callsite SetDuration requires durationIsParam: uint64(arg1) == p.Duration && p.Duration != 0
+//@   callsite SetIsAutoReturn requires autoReturnIsParam: arg1 == p.AutoReturn
+//@   callsite SetIsOut requires outOfNetworkIsParam: arg1 == p.OutOfNetworkIndicator
+//@   callsite SetSpliceImmediate requires immediateIsParam: arg1 == p.SpliceImmediateFlag
+//@   callsite SetIsEventCanceled requires cancelIsParam: arg1 == p.SpliceEventCancelIndicator
+//@   callsite SetCommandInfo requires commandIsTheInsert: arg1 == cmd && arg0 == s
+//@   callsite UpdateData requires encodedSignal: arg0 == s
 
 // maxMediaTime bounds media times so that spliceTime*90000 cannot wrap in uint64
 // (2^64/90000; at 90 kHz this is reached in the year 2042).
